@@ -211,6 +211,8 @@ class GuardAu(Automaton):
                     if k0 in (None, 0):
                         outs.append(((tested, val, bad), 1))
                     return outs
+                if not tested and k0 != 1:
+                    bad = bad | {'tombstone-panics'}
                 return [((True, val, bad), None)]
         if p.endswith('DNSSector::check_uncompressed_name'):
             return [((tested, True, bad), 0), ((tested, val, bad), 1)]
@@ -220,6 +222,60 @@ class GuardAu(Automaton):
             if not keys:
                 return [(q2, None)]
         return None
+
+
+def _guard_on_edge(self, q, f, bi, t, value, target, env):
+    """`match self.offset() { Some(..) => .., None => .. }` / `if self.offset().is_some()` count as the tombstone test on their Some edge."""
+    tested, val, bad = q
+    if tested:
+        return q
+    defs = self._defs(f)
+    e = F.expr(f, defs, t['discr'])
+    def is_off(rs):
+        return bool(rs) and all(r[0] == 'call' and (r[1].endswith('DNSIterable>::offset') or r[1] == 'rr_iterator::DNSIterable::offset') for r in rs)
+    some = None
+    if e[0] == 'discr' and is_off(F.roots_place(f, defs, e[1])):
+        some = (value == 1) if value is not None else None
+        if value is None:
+            some = not any(v == 1 for v, _ in t['targets'])
+    elif e[0] == 'call' and e[1] in ('std::option::Option::<T>::is_some', 'std::option::Option::<T>::is_none') and e[2]:
+        a = e[2][0]
+        pl = a[1] if a[0] in ('ref', 'load') else None
+        if pl is not None and is_off(F.roots_place(f, defs, pl)):
+            truth = (value != 0) if value is not None else all(v == 0 for v, _ in t['targets'])
+            some = truth if e[1].endswith('is_some') else not truth
+    if some:
+        return (True, val, bad)
+    return q
+
+
+GuardAu.on_edge = _guard_on_edge
+
+
+COMPLAINTS = {'untested': 'a destructive event can happen before the `offset().ok_or(VoidRecord)` test: an operation on a deleted record\'s cursor would touch the packet',
+              'unvalidated': 'a destructive event can happen before the new name has been validated',
+              'tombstone-panics': 'the cursor offset is unwrapped (unwrap/expect) on a path where it has not been tested: on a deleted record\'s cursor the operation panics instead of reporting VoidRecord'}
+
+
+def tombstone_rule(ctx, facts, cfg, pe, rid, ops, floor):
+    gau = GuardAu(facts, pe)
+    gflow = PathFlow(facts, gau)
+    n = 0
+    for p, need_val in ops:
+        for key in facts.inst_keys(p):
+            n += 1
+            f = facts.fns[key]
+            exits = gflow.summary(key, GuardAu.init)
+            complaints = set()
+            for (q, kind) in exits:
+                complaints |= set(q[2])
+            if not need_val:
+                complaints.discard('unvalidated')
+            ctx.instance(rid, '%s: tombstone test%s precede every destructive event and every unwrap of the cursor offset' % (key, ' and name validation' if need_val else ''), ok=not complaints, site=f['at'])
+            for c in sorted(complaints):
+                ctx.violation(rid, key, c, COMPLAINTS[c], site=f['at'], config=cfg)
+    if n < floor:
+        ctx.violation(rid, '<floor>', 'guarded operations', 'found %d instances of %s, expected %d' % (n, '/'.join(o[0].split('::')[-1] for o in ops), floor), kind='below-floor')
 
 
 def run(ctx):
@@ -279,24 +335,5 @@ def run(ctx):
             from rules import geometry
             geometry.insert_rule(ctx, facts, cfg, 'C10.b-geometry', 'C10.b-arith', limit)
         # ------------------------------ C10.c ---------------------------------
-        rid = 'C10.c'
-        gau = GuardAu(facts, pe)
-        gflow = PathFlow(facts, gau)
-        n = 0
-        for p, need_val in (('rr_iterator::TypedIterable::set_raw_name', True), ('rr_iterator::TypedIterable::delete', False), ('rr_iterator::TypedIterable::resize_rr', False)):
-            for key in facts.inst_keys(p):
-                n += 1
-                f = facts.fns[key]
-                exits = gflow.summary(key, GuardAu.init)
-                complaints = set()
-                for (q, kind) in exits:
-                    complaints |= set(q[2])
-                if not need_val:
-                    complaints.discard('unvalidated')
-                ctx.instance(rid, '%s: tombstone test%s precede every destructive event' % (key, ' and name validation' if need_val else ''), ok=not complaints, site=f['at'])
-                for c in sorted(complaints):
-                    ctx.violation(rid, key, c, {'untested': 'a destructive event can happen before the `offset().ok_or(VoidRecord)` test: an operation on a deleted record\'s cursor would touch the packet',
-                                               'unvalidated': 'a destructive event can happen before the new name has been validated'}[c], site=f['at'], config=cfg)
-        if n < 6:
-            ctx.violation(rid, '<floor>', 'guarded operations', 'found %d instances of set_raw_name/delete/resize_rr, expected 6' % n, kind='below-floor')
+        tombstone_rule(ctx, facts, cfg, pe, 'C10.c', (('rr_iterator::TypedIterable::set_raw_name', True), ('rr_iterator::TypedIterable::delete', False), ('rr_iterator::TypedIterable::resize_rr', False)), 6)
     ctx.assume('cursor invariant: a live cursor lies at or behind the question (used by the listed resize_rr -> current_section exception)')
